@@ -96,6 +96,66 @@ fn distinct_args(d: &mut D, name: &str, dst: u8) -> Value {
     }
 }
 
+/// One field of an argument record changed, the others left as they are (None when the field has no other value).
+fn field_variant(key: &str, v: &Value, salt: u64) -> Option<Value> {
+    if let Some(x) = v.as_u64() {
+        let nv = match key {
+            "cc" => (x + 1 + salt % 5) % 6,
+            "assignment" | "endpoint_type" | "fairness" => 1 - (x & 1),
+            "allocation" => (x + 1 + salt % 2) % 3,
+            "id_type" => (x + 1 + salt % 3) % 4,
+            "operation" => (x + 1 + salt % 2) % 3,
+            "query" => VERSION_QUERIES[((VERSION_QUERIES.iter().position(|q| *q == x).unwrap_or(0) as u64 + 1 + salt % 4) % 5) as usize],
+            "msg_type" => MSG_TYPE_VARIANTS[((MSG_TYPE_VARIANTS.iter().position(|q| *q == x).unwrap_or(0) as u64 + 1 + salt % 5) % 6) as usize],
+            "dst" => x ^ [0x01u64, 0x80, 0x40, 0x7F][(salt % 4) as usize],
+            _ => (x ^ (1 << (salt % 8))) & 0xFF,
+        };
+        return Some(json!(nv));
+    }
+    if let Some(a) = v.as_array() {
+        if a.is_empty() {
+            return None;
+        }
+        let mut a = a.clone();
+        let i = (salt as usize) % a.len();
+        if let Some(x) = a[i].as_u64() {
+            a[i] = json!(x ^ 0x10);
+        } else if let Some(inner) = a[i].as_array() {
+            let mut inner = inner.clone();
+            if inner.is_empty() {
+                return None;
+            }
+            let j = (salt as usize / 7) % inner.len();
+            inner[j] = json!(inner[j].as_u64().unwrap_or(0) ^ 0x10);
+            a[i] = Value::Array(inner);
+        }
+        return Some(Value::Array(a));
+    }
+    None
+}
+
+/// An encoder is a function of its arguments (and the stored EID): call it with A, then with A changed in exactly
+/// one field, then with A again - for every field, on one context, with nothing in between.  Whatever an encoder
+/// keeps from one call to the next must not show in the bytes of the next.
+fn one_field_walk(d: &mut D, is_resp: bool, ctx: u64, name: &str, base: &Value, k: &mut usize) {
+    let call = |d: &mut D, a: &Value, k: &mut usize| {
+        let p = if is_resp { d.enc_resp(ctx, name, a.clone()) } else { d.enc_req(ctx, name, a.clone()) };
+        *k += 1;
+        check_pkt(d, &p, *k * 16 + 1); // decoded rarely: the point is the encoder's own history
+    };
+    call(d, base, k);
+    let keys: Vec<String> = base.as_object().map(|o| o.keys().cloned().collect()).unwrap_or_default();
+    for key in keys {
+        let salt = d.g.below(1 << 20);
+        if let Some(nv) = field_variant(&key, &base[&key], salt) {
+            let mut a = base.clone();
+            a[&key] = nv;
+            call(d, &a, k);
+            call(d, base, k);
+        }
+    }
+}
+
 pub fn requests(d: &mut D) {
     d.std_ctxs();
     let mut k = 0usize;
@@ -269,6 +329,14 @@ pub fn requests(d: &mut D) {
             check_pkt(d, &p, k);
         }
     }
+    // one field at a time, on one context, nothing in between
+    for name in REQ_NAMES.iter() {
+        for _ in 0..(if d.thorough { 40 } else { 4 }) {
+            let dst = d.g.byte();
+            let a = d.rand_req_args(name, dst);
+            one_field_walk(d, false, 12, name, &a, &mut k);
+        }
+    }
 }
 
 pub fn responses(d: &mut D) {
@@ -378,6 +446,15 @@ pub fn responses(d: &mut D) {
         let p = d.enc_resp(20, name, a);
         k += 1;
         check_pkt(d, &p, k);
+    }
+    // one field at a time, on one context, nothing in between (no accessor call either)
+    for name in RESP_NAMES.iter() {
+        for _ in 0..(if d.thorough { 60 } else { 6 }) {
+            let dst = d.g.byte();
+            let cc = if d.g.chance(1, 3) { d.g.below(6) } else { 0 };
+            let a = d.rand_resp_args(name, dst, cc);
+            one_field_walk(d, true, 10, name, &a, &mut k);
+        }
     }
 }
 
